@@ -88,7 +88,7 @@ def run(ctx):
                 for k in sorted(c["bad"]):
                     r_ = recs[k - 1]
                     a = r_.get("alpha")
-                    region = "body" if a is None else ("alpha<=1e-9" if a <= 1e-9 else ("alpha>=1-1e-9" if a >= 1 - 1e-9 else "body"))
+                    region = "range" if a is None else ("tail<0.0005" if a < 0.0005 else ("tail>0.9995" if a > 0.9995 else "range"))       # [0.0005, 0.9995] is the accuracy range of the property
                     ctx.violation("quantiles|%s|%s|%s" % (c["law"], r_["e"], region), "law %s of Quantiles.tla fails at record %d: %s (next record: %s)" % (
                         c["law"], k, {x: r_[x] for x in r_ if x not in ("fx", "ref", "afx")}, {x: recs[k][x] for x in recs[k] if x not in ("fx", "ref", "afx")} if k < len(recs) else None),
                         replay={"table": tp, "record": k})
